@@ -36,7 +36,8 @@
   called `me`; F142 repaired); chunk expressions `char|word|item|line a [to b] of d` (opcode 17; chains of strictly coarser chunks
   = one slice instruction with several slots, any other nesting = several instructions); `the number of <chunk>s of e` (5c 01), `the last <chunk> of e` (5c 00, k = 11 + rank),
   `the <p> of field e` (5c 0b; reading only: the assignment 5d 0b is F38); property lists `[k: v, …]`, `[:]` (1f).  Assignment targets: the four variable kinds, `set the <p> of sprite|cast|sound n`
-  (5d 06/09/04/0d), `set the <system property>` (5d 07), `set the floatPrecision …` (5d 00), `set the <p> of <obj>` (62 n).
+  (5d 06/09/04/0d), `set the <system property>` (5d 07), `set the floatPrecision …` (5d 00), `set the <p> of <obj>` (62 n),
+  `set the <movie property> = v` (60 n; since the repair of F150 also when the script declares a property of that name).
 
   WHOLE SCRIPTS (`T_link_all`, `T_C02_all`): `FragScriptM` (DrxProofs/LinkMixed.lean) — every handler is either flat (`FragH`) or
   structured (`FragHS`).
@@ -243,7 +244,7 @@ example : String.ofList (mText exScript) =
 
 /-- `on edit t, z / set y = t / put "!" after y / put (z + 1) into field 3 / … / end` and `on calls a, b / … / end` -/
 def exPut : Script :=
-  { factory := [], props := [], globals := ["gTotal".toList],
+  { factory := [], props := ["traceLoad".toList], globals := ["gTotal".toList],
     handlers := [
       { name := "edit".toList, params := ["s".toList, "z".toList], isMethod := false,
         body := [ .set (.var .loc "t".toList) (.var .param "s".toList),
@@ -267,7 +268,10 @@ def exPut : Script :=
                   .mcall (.var .loc "r".toList) "mDispose".toList [],
                   .call "sound".toList [.sym "playFile".toList, .int 1, .str "beep".toList],
                   .call "sound".toList [.sym "close".toList],
-                  .call "go".toList [.sym "loop".toList] ] } ] }
+                  .call "go".toList [.sym "loop".toList],
+                  .set (.movie "traceLoad".toList) (.var .param "b".toList),
+                  .set (.var .prop "traceLoad".toList) (.movie "traceLoad".toList),
+                  .set (.movie "itemDelimiter".toList) (.str ",".toList) ] } ] }
 
 example : FragScript exPut = true := by decide +kernel
 
@@ -283,7 +287,7 @@ example : ∃ c, compile {} exPut = .ok c ∧ NamesOk c := by
 
 /-- the text the theorem predicts (also the output of the real decompiler on the compiled chunks) -/
 example : String.ofList (mText exPut) =
-    "global gTotal\n\non edit s, z\n    global gLog\n\n    set t = s\n    put \"!\" after t\n    put (z + 1) into field 3\n    put t before field \"status\"\n    put \"ab\" into char 1 of word 2 of field \"status\"\n    put z after line 2 to 3 of t\n    delete word z of t\n    delete char 1 to 4 of item 2 of line 1 of field 3\n    hilite field \"status\"\n    hilite word 2 of field (z + 1)\n    put \"x\" into char 1 of line z of gTotal\n    delete word 2 of gLog\n    put t, (z + 1)\nend\n\non calls a, b\n    set x = b\n    a mStore, x, 2\n    set r = (gTotal(mGet) + x(mAt, b, a(mTop, 1)))\n    r mDispose\n    sound playFile 1, \"beep\"\n    sound close \n    go loop\nend\n" := by
+    "property traceLoad\nglobal gTotal\n\non edit s, z\n    global gLog\n\n    set t = s\n    put \"!\" after t\n    put (z + 1) into field 3\n    put t before field \"status\"\n    put \"ab\" into char 1 of word 2 of field \"status\"\n    put z after line 2 to 3 of t\n    delete word z of t\n    delete char 1 to 4 of item 2 of line 1 of field 3\n    hilite field \"status\"\n    hilite word 2 of field (z + 1)\n    put \"x\" into char 1 of line z of gTotal\n    delete word 2 of gLog\n    put t, (z + 1)\nend\n\non calls a, b\n    set x = b\n    a mStore, x, 2\n    set r = (gTotal(mGet) + x(mAt, b, a(mTop, 1)))\n    r mDispose\n    sound playFile 1, \"beep\"\n    sound close \n    go loop\n    set the traceLoad = b\n    set traceLoad = the traceLoad\n    set the itemDelimiter = \",\"\nend\n" := by
   decide +kernel
 
 /-! ### non-vacuity, structured -/
